@@ -45,3 +45,78 @@ impl<F: Future> Future for CancelAfter<F> {
 }
 
 impl<F: Future> Unpin for CancelAfter<F> {}
+
+
+// ---------------------------------------------------------------------------------------------
+// CancelOnWake: poll the future, and once its waker has been invoked `k` times drop it WITHOUT
+// polling it again - what `tokio::select!` does when another branch wins after this future was
+// already notified. This is the window in which a consumed notification / a taken item is lost.
+// ---------------------------------------------------------------------------------------------
+
+use std::sync::atomic::{AtomicUsize, Ordering};
+use std::sync::Arc;
+use std::task::{Wake, Waker};
+
+struct CountingWaker {
+  wakes: AtomicUsize,
+  outer: parking_lot::Mutex<Option<Waker>>,
+}
+
+impl Wake for CountingWaker {
+  fn wake(self: Arc<Self>) {
+    self.wake_by_ref()
+  }
+  fn wake_by_ref(self: &Arc<Self>) {
+    self.wakes.fetch_add(1, Ordering::SeqCst);
+    if let Some(w) = self.outer.lock().as_ref() {
+      w.wake_by_ref();
+    }
+  }
+}
+
+pub struct CancelOnWake<F: Future> {
+  fut: Option<Pin<Box<F>>>,
+  k: usize,
+  cw: Arc<CountingWaker>,
+  pub pendings: usize,
+}
+
+impl<F: Future> CancelOnWake<F> {
+  /// Drop the future as soon as it has been woken `k` times (k >= 1) after returning Pending.
+  pub fn new(f: F, k: usize) -> Self {
+    CancelOnWake { fut: Some(Box::pin(f)), k: k.max(1), cw: Arc::new(CountingWaker { wakes: AtomicUsize::new(0), outer: parking_lot::Mutex::new(None) }), pendings: 0 }
+  }
+}
+
+impl<F: Future> Unpin for CancelOnWake<F> {}
+
+impl<F: Future> Future for CancelOnWake<F> {
+  type Output = CancelOutcome<F::Output>;
+  fn poll(mut self: Pin<&mut Self>, cx: &mut Context<'_>) -> Poll<Self::Output> {
+    let this = &mut *self;
+    *this.cw.outer.lock() = Some(cx.waker().clone());
+    if this.pendings > 0 && this.cw.wakes.load(Ordering::SeqCst) >= this.k {
+      // notified k times: another select! branch "wins" - drop without polling
+      this.fut = None;
+      return Poll::Ready(CancelOutcome::Cancelled(this.pendings));
+    }
+    let waker = Waker::from(this.cw.clone());
+    let mut icx = Context::from_waker(&waker);
+    let fut = this.fut.as_mut().expect("polled after completion");
+    match fut.as_mut().poll(&mut icx) {
+      Poll::Ready(v) => {
+        this.fut = None;
+        Poll::Ready(CancelOutcome::Completed(v, this.pendings))
+      }
+      Poll::Pending => {
+        this.pendings += 1;
+        if this.cw.wakes.load(Ordering::SeqCst) >= this.k {
+          // woken during the poll itself: cancel right away
+          this.fut = None;
+          return Poll::Ready(CancelOutcome::Cancelled(this.pendings));
+        }
+        Poll::Pending
+      }
+    }
+  }
+}
